@@ -23,7 +23,7 @@ ANCHORS = [("leuvenmapmatching/map/base.py", "BaseMap.use_latlon"),
            ("leuvenmapmatching/util/dist_latlon.py", "distance_point_to_segment"),
            ("leuvenmapmatching/util/dist_latlon.py", "distance")]
 FLOORS = {"pairs_compared": 1200, "complete_matches_compared": 900, "family:simple": 300, "family:simple_nodes": 300, "family:distance": 300,
-          "southern_hemisphere": 300, "high_latitude": 150}
+          "southern_hemisphere": 300, "high_latitude": 150, "straddles_antimeridian": 60}
 ASSUMPTIONS = ["index must be equal; best log-probability within 1e-2*max(1,|x|) (the 0.1 m noise floor of the cross-/along-track formulation, "
                "propagated through d*delta/sigma^2 per step); finer errors of the geodesic primitives are C14's business",
                "node-and-edge mode decides 'edge or end node' by the relative position with an absolute 1e-8 tolerance: cases in which an "
@@ -45,7 +45,11 @@ def gen_case(rng, i, tier):
         if cfg.get(k) is not None:
             cfg[k] = cfg[k] * SCALE
     lat = rng.choice([rng.uniform(-60, 60), rng.uniform(50, 60), -rng.uniform(50, 60), rng.uniform(-5, 5)])
-    case["center"] = [lat, rng.uniform(-170, 170)]
+    case["center"] = [lat, rng.uniform(-180, 180)]
+    if rng.random() < 0.08:
+        # "any longitude": the map straddles the antimeridian (node longitudes on both sides of +-180)
+        case["center"] = [lat, rng.choice([-180.0, 180.0, 179.9995, -179.9992, rng.uniform(179.997, 180.0), -rng.uniform(179.997, 180.0)])]
+        case["antimeridian"] = True
     return case
 
 
@@ -123,6 +127,10 @@ def check_case(ctx, case):
         ctx.count("southern_hemisphere")
     if abs(case["center"][0]) > 50:
         ctx.count("high_latitude")
+    if case.get("antimeridian"):
+        lons = [p[1] for _, p in pc["map"]["nodes"]] + [p[1] for p in pc["trace"]]
+        if min(lons) < -179 and max(lons) > 179:
+            ctx.count("straddles_antimeridian")
     n = len(case["trace"])
     if mt0.lattice and n >= 3:
         avg = sum(len([x for x in col.values(0) if not x.stop]) for col in mt0.lattice.values()) / max(1, len(mt0.lattice))
